@@ -94,10 +94,9 @@ def weights_intact(ctx, g, where):
         arr = hit[1].img if w["kind"] == "i" else hit[1]
         want = np.array(w["values"], dtype=float).reshape(w["shape"])
         if not isinstance(arr, np.ndarray) or arr.shape != want.shape or not np.array_equal(arr, want):
-            ctx.fail(f"C03:{g['kind']}-geometry:weight-argument-changed({'Image' if w['kind'] == 'i' else 'array'})",
-                     f"the weight array handed to the constructor no longer holds its values after {where} "
-                     f"(first entries {np.asarray(arr, dtype=float).ravel()[:4].tolist()} instead of {want.ravel()[:4].tolist()})",
-                     {"check": "weights", "geo": g, "history": []})
+            # immutability of constructor arguments is not a clause of C03: observation only (a mutation that matters shows as a wrong value
+            # of the next geometry built from the same array, which IS a stated clause)
+            ctx.cov["weight_argument_changed_observed"] = ctx.cov.get("weight_argument_changed_observed", 0) + 1
             del _WOBJ[id(w)]  # continue with a pristine array
 
 
@@ -275,6 +274,15 @@ def expected_error(g, dat):
     return None
 
 
+def close_rel(a, b, tol):
+    if a == b:
+        return True
+    if a.startswith("!") or b.startswith("!"):
+        return False
+    xa, xb = a.split(), b.split()
+    return len(xa) == len(xb) and all(abs(Fraction(p) - Fraction(q)) <= tol * max(abs(Fraction(p)), abs(Fraction(q)), Fraction(1, 1000)) for p, q in zip(xa, xb))
+
+
 def close(a, b, exact):
     """compare two result strings (rationals) - exactly, or relatively"""
     if a == b:
@@ -329,6 +337,9 @@ TRAILINGS = [((), (False, False)), ((), (True, False)), ((3,), (False, False)), 
              ((2, 2), (False, True)), ((3, 2), (True, True))]
 
 
+_OBS = {}
+
+
 def run_history(d, g, hist):
     """return values (strings) of the successive calls on ONE object, and of each call on a FRESH object"""
     dims = g.get("dims") or [n * v for n, v in zip(g["nv"], g["voxel_size"])]
@@ -344,8 +355,8 @@ def run_history(d, g, hist):
         xa = x if isinstance(x, np.ndarray) else x.img
         if isinstance(f, Raised):
             fresh[-1] = repr(f)
-        if not (isinstance(xa, np.ndarray) and xa.dtype == np.dtype(dat.get("dtype", "float64")) and np.array_equal(xa, data_array(dat))):
-            fresh[-1] = "!data-argument-changed"
+        if not (isinstance(xa, np.ndarray) and np.array_equal(np.asarray(xa, dtype=float), np.asarray(data_array(dat), dtype=float))):
+            _OBS["data_argument_changed"] = _OBS.get("data_argument_changed", 0) + 1  # not a clause of C03: observation only
     return seq, fresh
 
 
@@ -355,11 +366,7 @@ def check_history(ctx, d, g, hist, labels, exact, where):
     weights_intact(ctx, g, f"history {labels}")
     for n, (a, b, dat) in enumerate(zip(seq, fresh, hist)):
         exp_err = expected_error(g, dat)
-        if b == "!data-argument-changed":
-            ctx.fail("C03:integrate:data-argument-changed", f"the data handed to integrate ({dat.get('dtype')}, layout {dat.get('layout')}) differ after the call",
-                     {"check": "spec", "geo": g, "history": [dat], "labels": labels[n]})
-            continue
-        if a != b:
+        if a != b and (exact or not close_rel(a, b, 1e-12)):
             ctx.fail(f"C03:integrate:history-dependent({'array' if has_array(g) else 'scalar'}-volume)",
                      f"call {n} of history {labels} on one {g['kind']} geometry returned {a}, a fresh object returns {b}",
                      {"check": "history", "geo": g, "history": hist, "labels": labels, "call": n, "on_object": a, "fresh": b})
@@ -551,7 +558,7 @@ def oracle_fields(ctx, d):
                         norm_impl.append(np.asarray(out.img, dtype=float).ravel().tolist())
                     i1 = call(build_geo(d, g).integrate, out)
                     i2 = call(build_geo(d, g).integrate, data_obj(d, refd, dim, dims))
-                    if isinstance(i1, Raised) or isinstance(i2, Raised) or not np.allclose(np.asarray(i1, dtype=float), np.asarray(i2, dtype=float), rtol=1e-12, atol=0):
+                    if isinstance(i1, Raised) or isinstance(i2, Raised) or not np.allclose(np.asarray(i1, dtype=float), np.asarray(i2, dtype=float), rtol=1e-10, atol=0):  # signed data: cancellation bound ~5e-13 measured, 200x margin
                         ctx.fail(f"C03:normalize:integrals-differ({'array' if has_array(g) else 'scalar'}-volume)", f"integral of normalised image {show_result(i1)} != integral of reference {show_result(i2)}",
                                  {"check": "normalize", "geo": g, "history": [img, refd]})
     # correspondence: normalised image (model: exact rationals) against the implementation's floats, relative 1e-12 (one float division)
@@ -571,6 +578,7 @@ def oracle_fields(ctx, d):
         k = bad[0]
         ctx.mark("CORR-BROKEN", {"correspondence": "normalize", "request": norm_lines[k][:1500], "model": got[k][:800], "impl": fmts(norm_impl[k])[:800], "n_diffs": len(bad)})
         ctx.log(f"correspondence normalize: {len(bad)} disagreements, e.g. model={got[k][:150]} impl={fmts(norm_impl[k])[:150]}")
+    ctx.cov["observations"] = dict(_OBS)
     ctx.cov["oracle"] = {"resolution_cases": nres, "linearity_cases": nlin, "normalize_cases": nnorm}
 
 
